@@ -56,7 +56,7 @@ func init() {
 		ID: "C07", NeedsServer: true,
 		Explanation: "decides the three structural defences against lost/duplicated/delayed messages: the server ignores a re-pushed operation by client sequence, a stale response cannot move the client checkpoint back, and own operations are filtered by origin on one side (known finding F15: they are not); plus apply order and checkpoint arithmetic. NOT decided: the count-based skipping itself, which is arithmetic over run-time checkpoints.",
 		Assumptions: []string{},
-		Rules: []ruleFn{func(w *World, r *Report) { ruleR06_1(w, r, true) }, ruleR05_2, ruleR07_3, ruleR05_1, ruleR05_5},
+		Rules: []ruleFn{func(w *World, r *Report) { ruleR06_1(w, r, false) }, ruleR05_2, ruleR07_3, ruleR05_1, ruleR05_5},
 	})
 }
 
@@ -193,6 +193,20 @@ func init() {
 	add("C18", ruleR18_6, ruleR18_7)
 	add("C19", ruleR04_7)
 	add("C20", ruleR15_4, ruleR18_5)
+	// round 3 (DESIGN.md section 13)
+	add("C04", ruleR09_3)
+	add("C05", ruleR02_2, ruleR13_5)
+	add("C06", ruleR14_4, ruleR13_5)
+	add("C07", ruleR13_5)
+	add("C08", ruleR05_5)
+	add("C09", ruleR15_5)
+	add("C13", ruleR13_5)
+	add("C14", ruleR14_7)
+	add("C03", ruleR14_7)
+	add("C16", ruleR13_1)
+	add("C17", ruleR11_1, ruleR06_2)
+	add("C18", ruleR05_2)
+	add("C20", ruleR09_2)
 	for _, id := range []string{"C04", "C13"} {
 		registry[id].NeedsServer = registry[id].NeedsServer || id == "C13"
 	}
